@@ -38,6 +38,9 @@ HC = os.path.join(HERE, "..", "harness", "c")
 
 # ------------------------------------------------------------------ (A) store-level tie
 NFUNC = 16
+# which record_ret_stack the model is compared with: False = the code as found (two size updates per record with
+# payload); True = proposed-fixes/C04-1.diff (one update).  Flip when the fix is committed to /repo.
+SINGLE_BUMP = os.environ.get("VERIF_C04_SINGLE", "0") == "1"     # (environment knob: only to try the fix on a scratch tree)
 ARGSPEC = {1: ["arg1"], 2: ["arg1/i32"], 3: ["arg1", "arg2"], 4: ["arg1/i32", "arg2/i32"], 9: ["arg1/i16"]}
 RETSPEC = {5: "retval", 6: "retval/i32", 3: "retval"}
 
@@ -175,7 +178,7 @@ def coq_ops(c, f0):
 
 
 def coq_case(c, r, f0):
-    return ("{| tc_cap := %d; tc_ops := %s; tc_sync := [%s]; tc_kill := %s; tc_flush := %s; "
+    return ("{| tc_single := " + coq.coq_bool(SINGLE_BUMP) + "; tc_cap := %d; tc_ops := %s; tc_sync := [%s]; tc_kill := %s; tc_flush := %s; "
             "tc_shl := %s; tc_shf := %s; tc_wl := %s; tc_file := %s |}" % (
                 c["cap"], coq_ops(c, f0), "; ".join(coq.coq_bool(b) for b in c["sync"]),
                 ("Some %d" % c["e"]) if c["mode"] == "kill" else "None",
@@ -721,11 +724,9 @@ def e2e_run(uft, objdir, prog, work, idx, case):
 
 
 def coq_ecase(ftab, log, dat, crash, nest):
-    n8 = len(dat) // 8
-    words = struct.unpack("<%dQ" % n8, dat[:n8 * 8])
-    return ("{| e_ftab := [%s]%%N; e_log := [%s]%%N; e_words := [%s]%%N; e_tail := %d; e_crash := %s; e_nest := %s |}" % (
+    return ("{| e_ftab := [%s]%%N; e_log := [%s]%%N; e_bytes := %s; e_crash := %s; e_nest := %s |}" % (
         "; ".join("(%d, %d)" % t for t in ftab), "; ".join("(%d, %d)" % e for e in log),
-        "; ".join("%d" % w for w in words), len(dat) % 8, coq.coq_bool(crash), coq.coq_bool(nest)))
+        coq_bytes(dat), coq.coq_bool(crash), coq.coq_bool(nest)))
 
 
 def run_e2e(ctx, objdir):
@@ -754,7 +755,7 @@ def run_e2e(ctx, objdir):
                       "src": src, "id": pi})
     cases = []
     hows = ["sigkill", "segv", "abort", "_exit", "execv", "exit", "finish"]
-    per = ctx.n(14, 60)
+    per = ctx.n(14, 42)
     for pr in progs:
         for j in range(per):
             how = hows[j % len(hows)]
@@ -774,6 +775,12 @@ def run_e2e(ctx, objdir):
         obs = list(ex.map(lambda ic: e2e_run(uft, objdir, progs[ic[1]["prog"]], work, ic[0], ic[1]), enumerate(cases)))
     ctx.log("end-to-end: %d traced runs in %.1fs" % (len(cases), time.time() - t0))
     ecases, owner = [], []
+    nviol = {}
+
+    def viol(kind, what, rj):          # at most three replay files per kind of failure
+        nviol[kind] = nviol.get(kind, 0) + 1
+        if nviol[kind] <= 3:
+            ctx.violation(what, rj, True)
     for ci, (case, ob) in enumerate(zip(cases, obs)):
         pr = progs[case["prog"]]
         rj = {"line": "e2e", "case": case, "program": pr["src"]}
@@ -782,7 +789,7 @@ def run_e2e(ctx, objdir):
         if ob.get("skipped"):
             continue
         if ob.get("timeout"):
-            ctx.violation("C04 violated: `uftrace record` did not terminate after the tracee %s" % how, rj, True)
+            viol("hang", "C04 violated: `uftrace record` did not terminate after the tracee %s" % how, rj)
             ctx.case(key=("e2e", ci, repr(case)), tags=tags + ["e2e:record-timeout"])
             continue
         need = ["info", "task.txt"]
@@ -793,8 +800,8 @@ def run_e2e(ctx, objdir):
         if not any(f.endswith(".sym") for f in files):
             missing.append("*.sym")
         if missing:
-            ctx.violation("C04 violated: data directory incomplete after the tracee %s: missing %s" % (how, missing),
-                          dict(rj, files=files, stderr=ob["stderr"]), True)
+            viol("dir", "C04 violated: data directory incomplete after the tracee %s: missing %s" % (how, missing),
+                 dict(rj, files=files, stderr=ob["stderr"]))
         total_bytes = sum(len(v) for v in ob["dat"].values())
         for cmdn, (rc, err) in ob["analysis"].items():
             if rc != 0 and total_bytes == 0 and "No data available" in err:
@@ -804,8 +811,8 @@ def run_e2e(ctx, objdir):
                     tags.append("e2e:empty-trace(no-dat,readers-say-no-data)")
                 continue
             if rc != 0:
-                ctx.violation("C04 violated: `uftrace %s` rejects the directory left after the tracee %s (rc=%d): %s"
-                              % (cmdn, how, rc, err), rj, True)
+                viol("reader", "C04 violated: `uftrace %s` rejects the directory left after the tracee %s (rc=%d): %s"
+                     % (cmdn, how, rc, err), rj)
         nrec = 0
         for ti, (tid, log) in enumerate(ob["logs"]):
             ref = pr["full"][ti][1] if how in ("finish",) else log
